@@ -35,7 +35,7 @@ def plan(tier, seed, complete=False):
         from vf.prng import R, mix
 
         r = R(mix("C06", seed))
-        idx = sorted(set(r.sample(N_Z1, 550)) | {N_Z1 + k for k in r.sample(N_Z3, 500)} | {N_Z1 + N_Z3 + k for k in r.sample(N_Z7, 700)} | {N_Z1 + N_Z3 + N_Z7 + k for k in r.sample(N_HS, 200)})
+        idx = sorted(set(r.sample(N_Z1, 550)) | {N_Z1 + k for k in r.sample(N_Z3, 500)} | {N_Z1 + N_Z3 + k for k in r.sample(N_Z7, 700)} | {N_Z1 + N_Z3 + N_Z7 + k for k in r.sample(N_HS, 900)})
     return {
         "items": [f"R:{i}" for i in idx],
         "zones": {"corpus": {"universe": N_Z1}, "rule-trigger documents (Z7)": {"universe": N_Z7}, "heading sequences": {"universe": N_HS}, "calm trees (every second one sprayed with long lines / trailing spaces / tabs / blank runs)": {"universe": N_Z3}, "run": {"documents": len(idx)}},
